@@ -88,6 +88,30 @@ pub fn check_one<P: Pid>(c: &PacketCase, st: &mut Stats) -> R {
             );
         }
     }
+    // packets the library produces by rewriting a PUBLISH (alias added / removed, DUP set) are "bytes produced for a
+    // packet" as well: each must equal the reference encoding of its own field values
+    if let Some(mqtt_protocol_core::mqtt::packet::GenericPacket::V5_0Publish(pb)) = built.as_ref() {
+        let mut variants: Vec<(&'static str, mqtt_protocol_core::mqtt::packet::GenericPacket<P>)> = vec![
+            ("set_dup", pb.clone().set_dup(!pb.dup()).into()),
+            ("add_topic_alias", pb.clone().add_topic_alias(7).into()),
+            ("remove_topic_add_topic_alias", pb.clone().remove_topic_add_topic_alias(65535).into()),
+        ];
+        if !pb.topic_name().is_empty() {
+            variants.push(("remove_topic_alias", pb.clone().remove_topic_alias().into()));
+        } else if let Ok(q) = pb.clone().remove_topic_alias_add_topic("restored/topic".to_string()) {
+            variants.push(("remove_topic_alias_add_topic", q.into()));
+        }
+        for (name, q) in variants {
+            let qb = q.to_continuous_buffer();
+            let qa = catch(|| adapt::from_lib(&q)).map_err(|pm| Fail::new("C03.accessor_ne_field", format!("{sig}/rewrite/{name}/panic"), pm))?;
+            let qr = refcodec::encode(&qa, P::W);
+            if qb != qr {
+                let d = first_diff(&qb, &qr);
+                return Err(Fail::new("C03.bytes_ne_reference", format!("{sig}/rewrite/{name}"), format!("PUBLISH rewritten by {name}: library {} bytes, reference encoding of its field values {} bytes, first difference at offset {d}: lib {} ref {}", qb.len(), qr.len(), hex_trunc(&qb, 40), hex_trunc(&qr, 40))));
+            }
+        }
+        st.class("publish_rewrites_compared");
+    }
     if gen::packet_nontrivial(&c.ap) {
         st.nontrivial_hash(h64(&reference));
         st.class("nontrivial");
